@@ -1155,4 +1155,103 @@ Section Proofs.
       destruct Hp as [Hp|Hp]; congruence.
     Qed.
   End Fresh.
+
+  (* ---------------------------------------------------------------------- *)
+  (* several transformations (roots) in one graph *)
+
+  Notation runr := (runr sw L ns canon sup).
+
+  Lemma run_runr root : forall evs st, run root evs st = runr (map (pair root) evs) st.
+  Proof.
+    induction evs as [|e r IH]; intros st; cbn [Annot.run Annot.runr map]; [reflexivity|].
+    destruct (step root e st); auto.
+  Qed.
+
+  Lemma runr_ok : forall res st st', MI st -> runr res st = Some st' ->
+    MI st' /\ Ext st st' /\ (forall r e, In (r, e) res -> covered e (t_memo st')) /\
+    (forall x, is_descr x = false -> In x (t_tr st') ->
+       In x (t_tr st) \/ exists r e, In (r, e) res /\ EvSpec r e (t_memo st') x) /\
+    (forall r e x, In (r, e) res -> EvSpec r e (t_memo st') x -> In x (t_tr st')).
+  Proof.
+    induction res as [|[r0 e0] rest IH]; intros st st' I E; cbn [Annot.runr] in E.
+    - assert (st' = st) by congruence. subst st'.
+      split; [exact I|]. split; [apply Ext_refl|]. split; [intros r e []|].
+      split; [intros x _ Hx; now left | intros r e x []].
+    - destruct (step r0 e0 st) as [s1|] eqn:Es; [|discriminate].
+      destruct (step_ok r0 e0 st s1 I Es) as (I1 & X1 & C1 & S1 & B1).
+      destruct (IH s1 st' I1 E) as (I' & X2 & C2 & S2 & B2).
+      pose proof (x_mono _ _ (proj1 X2)) as M.
+      split; [exact I'|]. split; [eapply Ext_trans; eauto|]. split; [|split].
+      + intros r e He. destruct He as [He|He]; [injection He as <- <-; eapply covered_mono; eauto | eauto].
+      + intros x D Hx. destruct (S2 x D Hx) as [H1|(r & e & He & H0)].
+        * destruct (S1 x D H1) as [H|H]; [now left|]. right. exists r0, e0. split; [now left|].
+          eapply EvSpec_mono; eauto.
+        * right. exists r, e. split; [now right | exact H0].
+      + intros r e x He HS. destruct He as [He|He].
+        * injection He as <- <-. apply (x_incl _ _ (proj1 X2)). apply B1. eapply EvSpec_back; eauto.
+        * eapply B2; eauto.
+  Qed.
+
+  Section FreshR.
+    Variable res : list (term * ev).
+    Variable st : tstate.
+    Hypothesis Hrun : runr res tinit = Some st.
+
+    Let R := runr_ok res tinit st MI_tinit Hrun.
+
+    Theorem runr_annot_exact x : is_descr x = false ->
+      (In x (t_tr st) <-> exists r e, In (r, e) res /\ EvSpec r e (t_memo st) x).
+    Proof.
+      destruct R as (_ & _ & _ & S & B). intros D. split.
+      - intros Hx. destruct (S x D Hx) as [[]|H]. exact H.
+      - intros (r & e & He & H). eapply B; eauto.
+    Qed.
+
+    Theorem runr_covered r e : In (r, e) res -> covered e (t_memo st).
+    Proof. destruct R as (_ & _ & C & _). apply C. Qed.
+
+    Theorem runr_memo_shape t n : tfind t (t_memo st) = Some n ->
+      match uri t with Some u => n = TUri u | None => exists k, n = TBn k end.
+    Proof.
+      destruct R as ([A _] & _). intros E. specialize (A t n E).
+      destruct (uri t); [exact A|]. destruct A as (k & -> & _). eauto.
+    Qed.
+
+    (* the membership sets of a root are made of the concepts added under THAT root *)
+    Theorem runr_membership_types r o : In (r, PContainsType, o) (t_tr st) <->
+      exists e, In (r, e) res /\ typed e = true /\
+        ((w_membership sw = true /\ tfind (ev_ty e) (t_memo st) = Some o) \/
+         (w_membership_super sw = true /\ canon_mem (ev_ty e) canon = true /\
+          exists s, In s (sup (ev_ty e)) /\ tfind s (t_memo st) = Some o)).
+    Proof.
+      rewrite runr_annot_exact by reflexivity. split.
+      - intros (r' & e & He & H). inversion H; subst; exists e;
+          (split; [exact He|]); (split; [assumption|]); [left|right]; eauto.
+      - intros (e & He & T & [[W E]|(W & C & s & Hs & E)]); exists r, e; (split; [exact He|]).
+        + now apply es_mtype.
+        + eapply es_msup; eauto.
+    Qed.
+
+    Theorem runr_membership_ops r o : In (r, PContainsOperation, o) (t_tr st) <->
+      w_operators sw = true /\ w_membership sw = true /\
+      exists c j out im, In (r, EvOp c j out im) res /\ o = TUri (uri_op L ns (OOp j)).
+    Proof.
+      rewrite runr_annot_exact by reflexivity. split.
+      - intros (r' & e & He & H).
+        apply EvSpec_mop_inv in H as (-> & W1 & W2 & c & j & out & im & -> & ->). eauto 10.
+      - intros (W1 & W2 & c & j & out & im & He & ->). exists r, (EvOp c j out im).
+        split; [exact He|]. eapply es_mop; eauto.
+    Qed.
+
+    (* a concept's own annotation does not depend on the root *)
+    Theorem runr_via c o : In (c, PVia, o) (t_tr st) <->
+      w_operators sw = true /\ exists r j out im, In (r, EvOp c j out im) res /\
+        o = TUri (uri_op L ns (OOp j)).
+    Proof.
+      rewrite runr_annot_exact by reflexivity. split.
+      - intros (r & e & He & H). inversion H; subst. split; [assumption|]. eauto 10.
+      - intros (W & r & j & out & im & He & ->). exists r, (EvOp c j out im). split; [exact He|].
+        eapply es_via; eauto.
+    Qed.
+  End FreshR.
 End Proofs.
